@@ -19,10 +19,16 @@ import (
 	"time"
 )
 
-const (
-	verifDir = "/verif"
-	simDir   = "/verif/sim"
-)
+// verifDir is /verif; VERIF_DIR overrides it so that a snapshot of the
+// framework (vp run) builds and runs from its own copy.
+var verifDir = func() string {
+	if v := os.Getenv("VERIF_DIR"); v != "" {
+		return v
+	}
+	return "/verif"
+}()
+
+var simDir = verifDir + "/sim"
 
 // repoDir is /repo; VERIF_REPO overrides it for the framework's own
 // sensitivity tests against scratch copies (never used by MANIFEST commands).
